@@ -1,11 +1,11 @@
 (* C17 (partial): the derive accepts every supported declaration.
    What a model can carry is the macro's own logic; this file covers the field-type parser (derive/src/parse.rs::next_type, transcribed branch by branch
-   in P/ParseModel.v on proc-macro token trees): every well-formed type of the grammar of supported field types, in every legal context, is consumed
+   in P/ParseModel.v on proc-macro token trees): every well-formed type of the grammar of supported field types, in every legal context (anything but `<`, `::` and `as` may follow), is consumed
    EXACTLY (the rest of the stream is untouched), never panics, never hits a construct outside the fragment, and yields the tree the templates expect.
    `wf` excludes keywords as path heads and a reference whose referent is again a reference (known finding D10: the real parser panics on `Option<&'a &'a u8>`).
    That rustc accepts the expansion (trait resolution, lifetimes, hygiene) cannot be modelled here; it is TESTED by compiling generated declarations. *)
 From Coq Require Import List Arith String.
-Require Import P.ParseModel P.ParseGrammar P.ParseProof P.ParsePrintModel P.ParsePrint.
+Require Import P.ParseModel P.ParseGrammar P.ParseProof P.ParsePrintModel P.ParsePrint P.ParseDecl P.ParseDeclGrammar P.ParseDeclProof.
 Theorem parse_complete : forall t rest, wf t -> stop rest -> next_type (S (depth t)) (lex t ++ rest) = Ok (Some (embed t)) rest.
 Proof. exact ParseProof.parse_complete. Qed.
 (* what the templates consume of an `Option<X>` field: the base name and the wrapped type *)
@@ -22,6 +22,15 @@ Qed.
 Theorem print_parse_roundtrip : forall t rest, wf t -> stop rest ->
   exists r, next_type (S (depth t)) (lex t ++ rest) = Ok (Some r) rest /\ pr r = lex t.
 Proof. exact ParsePrint.print_parse_roundtrip. Qed.
+(* the DECLARATION parser (parse_data with next_attribute, next_fields, next_generic, get_all_bounds; model P/ParseDecl.v): every well-formed
+   struct declaration of the grammar P/ParseDeclGrammar.v — any mix of #[difference(..)] attributes (flags, key = "value" pairs, trailing commas,
+   several attributes per item) and foreign attributes / doc comments, optional `pub`, lifetime / type / const parameters with bounds and defaults,
+   a where clause over paths, tuples and arrays (with or without trailing comma), named fields with attributes and any visibility — is parsed
+   to exactly the expected structure, nothing panics and nothing is left over. The bounds pass through the HashSet (the dedup functions) exactly when a
+   where clause is present. wf_decl asks for distinct parameter / where-clause names, non-keyword identifiers, well-formed types. *)
+Theorem struct_parse_complete : forall dedup_ty dedup_lt fuel d, wf_decl fuel d ->
+  parse_data dedup_ty dedup_lt fuel (lexd d) = Ok (expected dedup_ty dedup_lt d) nil.
+Proof. exact ParseDeclProof.struct_parse_complete. Qed.
 (* the finding the proof produced: `&&T` is not consumed as one type (the real parser then panics on the leftover) *)
 Example nested_ref_not_one_type :
   next_type 5 (lex (GRef None (GRef None (GPath "T" nil nil)))) = Ok (Some (Ty CUnNamed None (Some None) None)) (TP PAmp :: TId "T" :: nil).
@@ -29,3 +38,4 @@ Proof. reflexivity. Qed.
 Print Assumptions parse_complete.
 Print Assumptions option_is_recognised.
 Print Assumptions print_parse_roundtrip.
+Print Assumptions struct_parse_complete.
